@@ -263,8 +263,9 @@ func vxSoundness(s, t ast.BaseTerm, c ast.Constant) {
 
 // VxC12Leaf: S,T leaf types (base types, symbolic name-prefix types, symbolic singletons), c a leaf constant.
 func VxC12Leaf() {
-	s, ok1 := vxLeafType("S", vxAllLeaves)
-	t, ok2 := vxLeafType("T", vxAllLeaves)
+	leaves := vxAllLeaves[:vxParam("LEAFSET", len(vxAllLeaves))]
+	s, ok1 := vxLeafType("S", leaves)
+	t, ok2 := vxLeafType("T", leaves)
 	c, ok3 := vxLeafConst("c")
 	if !ok1 || !ok2 || !ok3 {
 		return
